@@ -91,6 +91,17 @@ CHECKS = {
             "same diagnostic set; (c) every ordered pair (Q) / triple (T) of a 12-build alphabet (incl. a blocker build and a "
             "daemon-style build) run in ONE interpreter: last build's messages and cache bytes equal a fresh process.",
             "2^32 hash seeds are not enumerable: a listed seed set; fixture stubs; owned cache-record clock", "4/C10"),
+    "C11": ("exploration",
+            "exhaustive round trips: every stdlib/corpus module x both formats, every flag subset of every node/type class",
+            "Every module of the bundled stdlib closure (Q 117 / T all 752 stubs) and every multi-file corpus case is built "
+            "cold with cache in both formats and loaded in a new process through the real process_fresh_modules; oracles: "
+            "byte-identical re-serialization per format, JSON-loaded == binary-loaded, attribute-wise walk of every slot of "
+            "every reachable node and type (justified skip list in the evidence), byte-identical serialization across hash "
+            "seeds. Synthetic lane: ALL 2^n subsets of the discovered boolean attributes of 31 node/type classes (Var: "
+            "subsets <=2 + complements in Q, all 2^20 in T) x optional-field combinations through serialize/deserialize and "
+            "write/read + fixup.",
+            "librt primitives only through the Python-level write/read paths (no rebuild of librt); generated programs not "
+            "enumerated", "4/C11"),
 }
 
 NOT_BUILT = {}
